@@ -619,7 +619,7 @@ func (a *Analysis) checkBinOp(fn *ssa.Function, x *ssa.BinOp) {
 		default:
 			return
 		}
-		vx, vy := a.varStr[x.X], a.varStr[x.Y]
+		vx, vy := a.varStrRow(x.X), a.varStrRow(x.Y)
 		if !vx && !vy {
 			return
 		}
@@ -628,6 +628,22 @@ func (a *Analysis) checkBinOp(fn *ssa.Function, x *ssa.BinOp) {
 			other = x.X
 		}
 		expr := fmt.Sprintf("string compare %s %s %s", operandStr(x.X), x.Op, operandStr(x.Y))
+		// compared with an entry of a constant table: the string of the current row
+		if rs, isRow := a.rowString(other); isRow && !(vx && vy) {
+			free := true
+			for i := 0; i < len(rs); i++ {
+				if isLetter(int(rs[i])) {
+					free = false
+				}
+			}
+			expr = fmt.Sprintf("string compare %s %s %q (row of a constant table)", operandStr(map[bool]ssa.Value{true: x.X, false: x.Y}[vx]), x.Op, rs)
+			if free {
+				a.site("O3", fn, x.Pos(), expr, "ok", "table entry without letters")
+			} else {
+				a.site("O3", fn, x.Pos(), expr, "violation", fmt.Sprintf("un-normalised input is compared with the table entry %q, which contains letters: only one case variant matches", rs))
+			}
+			return
+		}
 		if vx && vy {
 			a.site("O3", fn, x.Pos(), expr, "violation", "two case-variant strings are compared with each other")
 			return
@@ -658,10 +674,10 @@ func (a *Analysis) checkBinOp(fn *ssa.Function, x *ssa.BinOp) {
 	_, cx := x.X.(*ssa.Const)
 	_, cy := x.Y.(*ssa.Const)
 	// (an entry of a constant table is a constant within one row assignment)
-	if !cx && a.rowConstOf(x.X) != nil {
+	if rc := a.rowConstOf(x.X); !cx && rc != nil && !rc.str {
 		cx = true
 	}
-	if !cy && a.rowConstOf(x.Y) != nil {
+	if rc := a.rowConstOf(x.Y); !cy && rc != nil && !rc.str {
 		cy = true
 	}
 	// two different sources
